@@ -1033,6 +1033,11 @@ def run(chk):
     if len(stats["broken"]) > 5:
         chk.note(f"{len(stats['broken'])} correspondence disagreements in total")
     report_violations(chk, viol)
+    # tie to the source by regeneration: coordinates_to_tree / tree_to_indices_and_values / from_aos / from_dok of
+    # tensor.py are re-translated from /repo on every run and PROVED to produce the arrays of model/TensorBuild.v
+    # (coq/props/TIE_tensorbuild.v) + translator self-check (which also covers items/to_dok/from_lol/from_soa)
+    from props._tie import run_tie
+    run_tie(chk, ["tensorbuild"])
     if not chk.broken and not chk.violations:
         for f in list((VERIF / "build" / "cases").glob(f"c09_{RUN_ID}_*")) + list((VERIF / "build" / "cases").glob(f".c09_{RUN_ID}_*")):
             try:
